@@ -34,7 +34,7 @@ func init() {
 		Assumptions: []string{"executing a plan is not judged here", "a payload may be rejected or skipped; only crashes, hangs and loss of later valid points count"},
 		Cases: func(tier string) int {
 			if tier == "quick" {
-				return 16
+				return 32
 			}
 			return 240
 		},
